@@ -301,4 +301,45 @@ func runC10(c *Ctx) {
 	})
 	checkErrorsReturned(c, "R10.4", ch, 2, nil)
 	c.min("R10.4", 6)
+
+	// the configured base path (and host) are kept verbatim: at most a missing leading slash is added — the static
+	// query it may carry is never rewritten
+	nw := p.Fn("rt/client.New")
+	nBP := 0
+	for _, fn := range p.LibFuncs("rt/client") {
+		for _, st := range fieldStores(fn, "rt/client.Runtime", "BasePath") {
+			if fn != nw {
+				continue // (setters outside the constructor would be caught by R13.4's who-may-write)
+			}
+			nBP++
+			var okV func(v ssa.Value, d int) bool
+			okV = func(v ssa.Value, d int) bool {
+				if d == 0 {
+					return false
+				}
+				if v == ssa.Value(paramOf(nw, 1)) {
+					return true
+				}
+				if vFieldLoad("rt/client.Runtime", "BasePath", nil)(v) {
+					return true // re-reading what an earlier (checked) store put there
+				}
+				if bo, ok := v.(*ssa.BinOp); ok && bo.Op == token.ADD {
+					if k, isK := constString(bo.X); isK && k == "/" {
+						return okV(bo.Y, d-1)
+					}
+				}
+				if phi, ok := v.(*ssa.Phi); ok {
+					for _, e := range phi.Edges {
+						if !okV(e, d-1) {
+							return false
+						}
+					}
+					return true
+				}
+				return false
+			}
+			c.obI("R10.3", st, "base-path-verbatim", okV(st.Val, 4), "the base path given to client.New is stored as given, at most prefixed with a missing '/': its static query values reach buildHTTP unchanged", "value "+describe(st.Val))
+		}
+	}
+	c.obF("R10.3", nw, "stores-base-path", nBP >= 1, "client.New records the base path", "")
 }
